@@ -10,6 +10,8 @@ open XsVerif.Props.C09
 #print axioms load_perm_invariant
 #print axioms arrangement_independent
 #print axioms marked_lookup_is_circ
+#print axioms back_edge_reported
+#print axioms self_reference_reported
 #print axioms cyclic_order_dependent_counterexample
 #print axioms normSegs_idempotent
 #print axioms normSegs_join
